@@ -210,9 +210,26 @@ func (d *db) rebuildLogAndIndex(logNum fileNum) (err error) {
 		if err := d.rebuildLog(logNum); err != nil {
 			return err
 		}
+	} else if err := d.syncLog(logNum); err != nil {
+		return err
 	}
 	// save to index file
 	return d.mu.nodeStates.save(d.dirname, d.dataDir, logNum, d.opts.FS)
+}
+
+// syncLog makes the content of the specified log file durable. A log file that
+// was not closed properly can have records on its tail that were written without
+// being fsynced, they must be durable before the index describing them is.
+func (d *db) syncLog(logNum fileNum) (err error) {
+	fn := makeFilename(d.opts.FS, d.dirname, fileTypeLog, logNum)
+	f, err := d.opts.FS.OpenForAppend(fn)
+	if err != nil {
+		return err
+	}
+	defer func() {
+		err = firstError(err, f.Close())
+	}()
+	return f.Sync()
 }
 
 func (d *db) rebuildLog(logNum fileNum) (err error) {
